@@ -303,63 +303,64 @@ def _load_compressed(file_obj, file_type=None, resolver=None, mixed=False, **kwa
     # store loaded geometries as a list
     geometries = []
 
-    # so loaders can access textures/etc
-    archive = util.decompress(file_obj=arg.file_obj, file_type=arg.file_type)
-    resolver = resolvers.ZipResolver(archive)
+    try:
+        # so loaders can access textures/etc
+        archive = util.decompress(file_obj=arg.file_obj, file_type=arg.file_type)
+        resolver = resolvers.ZipResolver(archive)
 
-    # try to save the files with meaningful metadata
-    # archive_name = arg.file_path or "archive"
-    meta_archive = {}
+        # try to save the files with meaningful metadata
+        # archive_name = arg.file_path or "archive"
+        meta_archive = {}
 
-    # populate our available formats
-    if mixed:
-        available = available_formats()
-    else:
-        # all types contained in ZIP archive
-        contains = {util.split_extension(n).lower() for n in resolver.keys()}
-        # if there are no mesh formats available
-        if contains.isdisjoint(mesh_formats()):
-            available = path_formats()
+        # populate our available formats
+        if mixed:
+            available = available_formats()
         else:
-            available = mesh_formats()
+            # all types contained in ZIP archive
+            contains = {util.split_extension(n).lower() for n in resolver.keys()}
+            # if there are no mesh formats available
+            if contains.isdisjoint(mesh_formats()):
+                available = path_formats()
+            else:
+                available = mesh_formats()
 
-    for file_name, file_obj in archive.items():
-        try:
-            # only load formats that we support
-            compressed_type = util.split_extension(file_name).lower()
+        for file_name, file_obj in archive.items():
+            try:
+                # only load formats that we support
+                compressed_type = util.split_extension(file_name).lower()
 
-            # if file has metadata type include it
-            if compressed_type in ("yaml", "yml"):
-                import yaml
+                # if file has metadata type include it
+                if compressed_type in ("yaml", "yml"):
+                    import yaml
 
-                continue
-                meta_archive[file_name] = yaml.safe_load(file_obj)
-            elif compressed_type == "json":
-                import json
+                    continue
+                    meta_archive[file_name] = yaml.safe_load(file_obj)
+                elif compressed_type == "json":
+                    import json
 
-                meta_archive[file_name] = json.load(file_obj)
-                continue
-            elif compressed_type not in available:
-                # don't raise an exception, just try the next one
-                continue
+                    meta_archive[file_name] = json.load(file_obj)
+                    continue
+                elif compressed_type not in available:
+                    # don't raise an exception, just try the next one
+                    continue
 
-            # load the individual geometry
-            geometries.append(
-                load_scene(
-                    file_obj=file_obj,
-                    file_type=compressed_type,
-                    resolver=resolver,
-                    **kwargs,
+                # load the individual geometry
+                geometries.append(
+                    load_scene(
+                        file_obj=file_obj,
+                        file_type=compressed_type,
+                        resolver=resolver,
+                        **kwargs,
+                    )
                 )
-            )
 
-        except BaseException:
-            log.debug("failed to load file in zip", exc_info=True)
-
-    # if we opened the file in this function
-    # clean up after ourselves
-    if arg.was_opened:
-        arg.file_obj.close()
+            except BaseException:
+                log.debug("failed to load file in zip", exc_info=True)
+    finally:
+        # if we opened the file in this function clean up
+        # after ourselves even if the archive was unreadable
+        if arg.was_opened:
+            arg.file_obj.close()
 
     # append meshes or scenes into a single Scene object
     result = append_scenes(geometries)
